@@ -5,9 +5,17 @@ correspondence: (a) the unmodified pipecmd.c in harness/fmt_harness.c (guard pag
                     bytes, ASan/UBSan)                                   vs `pdshmodel rcmd model <variant>`
                 (b) the real `pdsh -R exec ... argdump ARGS` (argv seen by the helper, in hex)   vs the same
                 (c) the real pdsh under the preload shim with fake transports that log
-                    (type, host, user, rank, command)                    vs `pdshmodel rcmd model` (`reg` lines)
+                    (type, host, user, rank, command)                    vs `pdshmodel rcmd model` (`reg` lines:
+                    registry model fed by an independent expander; `regcli` lines: the same run computed from
+                    the command line alone by C02's model of opt.c + hostlist.c composed with the registry model)
+                (d) the real `pdsh -R rsh` against a scripted rsh peer on loopback (request bytes, back-connection
+                    to the announced stderr port, reserved ports held busy by the check)   vs `writes` lines
+                (e) sshcmd.c compiled per run with a fake ssh first in PATH               vs `ssh` lines
+                (f) the unmodified xrcmd.c in harness/xrcmd_harness.c with a scripted network (busy ports, connect
+                    results, sleep, xpoll, accept, peer's reply), every call on its sockets   vs `xr` lines
 oracle:         the same observations vs `pdshmodel rcmd spec` (token grammar / first annotated word /
-                defaults chain / rank = position); the command text must arrive verbatim
+                defaults chain / rank = position / four NUL-terminated fields / Exec/XrcmdSpec.lean `meets`);
+                the command text must arrive verbatim
 """
 import itertools
 import json
@@ -37,10 +45,12 @@ MANIFEST = dict(
          "specification (Exec/Spec.lean, Opt/RcmdSpec.lean).",
     design_ref="DESIGN.md section 5 C09, section 6 D10 D11 F09-2BR, appendix A.2 A.4",
     note="Lean 4.33 kernel; axioms propext/Classical.choice/Quot.sound at most; hand-written models tied to "
-         "pipecmd.c/opt.c/rcmd.c/dsh.c by differential execution of code built from /repo's working tree; host "
-         "expansion (hostlist.c) is a parameter of the registry model and is supplied by an independent Python "
-         "expander for simple names and bracket ranges; the rsh wire request is exercised against a scripted peer on "
-         "127.9.17.1-4:514 when the sandbox allows listening there (skipped with a note otherwise)")
+         "pipecmd.c/opt.c/rcmd.c/dsh.c/xrcmd.c by differential execution of code built from /repo's working tree; host "
+         "expansion (hostlist.c) is a parameter of the registry model, supplied twice per case: by an independent "
+         "Python expander and by C02's Lean model of opt.c + hostlist.c (composed run, must agree); the rsh wire "
+         "request is exercised against a scripted peer on the first free group of loopback addresses "
+         "127.9.17.1-4 / 127.19.X.1-4 port 514 (skipped with a note only if none can be bound), xrcmd's connection "
+         "set-up additionally in-process with a scripted network")
 
 ALPHA = "%hunxa"
 SAN_ENV = dict(os.environ, ASAN_OPTIONS="detect_leaks=0:handle_segv=0:allow_user_segv_handler=1")
@@ -88,6 +98,16 @@ def fmt_cases(ctx, rng):
             if n <= 3:
                 for h, u, r in envs[1:]:
                     cases.append("fmt %s %s %d %s" % (bh(h), bh(u), r, bh(s + b"\0")))
+    # the result string grows in steps (xstring.c XFGETS_CHUNKSIZE = 32; rank text in a 64-byte buffer): every token
+    # kind placed so that its replacement ends before, on and behind a step, with short and with long host / user
+    longenv = (b"H" * 40, b"U" * 33, 2147483647)
+    for base in (32, 64, 96, 128, 256, 1024, 4096):
+        for k in range(base - 9, base + 2):
+            for tok in (b"%h", b"%u", b"%n", b"%%", b"%x", b"%", b"%%h"):
+                for h, u, r in (envs[1], longenv):
+                    if (h, u, r) == longenv and base > 256:
+                        continue
+                    cases.append("fmt %s %s %d %s" % (bh(h), bh(u), r, bh(b"a" * k + tok + (b"" if tok == b"%" else b"zz") + b"\0")))
     nrand = 4000 if ctx.quick() else 40000
     for _ in range(nrand):
         n = rng.choice([0, 1, 2, 3, 5, 8, 13, 40, 200])
@@ -290,6 +310,8 @@ def part_a(ctx, cov, dist, rng, only=None):
 
 def expand_first(expr):
     """names hostlist_create yields for a word: only the FIRST bracket pair is expanded"""
+    if expr == "":
+        return []                   # hostlist_push(""): nothing is pushed
     i = expr.find("[")
     if i < 0:
         return [expr]
@@ -426,6 +448,105 @@ def gen_reg_case(rng, transports):
     return c
 
 
+def pinned_reg_cases(transports):
+    """run first in every run, whatever the seed: the classes of the property text, each one systematically --
+    overlapping words in every order (as one -w and as several), a host named twice, names that are string
+    prefixes of one another, zero-padded look-alikes, two-bracket words, every source of the default transport
+    (-R, PDSH_RCMD_TYPE, each member of the rank list alone and against every other), -l against user@, and the
+    rank after exclusion of the first / a middle / the last host"""
+    out = []
+    t1, t2, t3 = transports["r01"], transports["r02"], transports["r03"]
+
+    def mk(wargs, excl=(), l=None, R=None, envtype=None, loaded=("r01", "r02", "r03", "r07"), cmd=("true",), ls=None):
+        c = {"loaded": None, "env": {}, "excl": list(excl), "l": l, "R": R, "envtype": envtype,
+             "loaded_ids": list(loaded), "words": [], "cmd": list(cmd), "pinned": True}
+        argv = []
+        for ws in wargs:
+            argv += ["-w", ",".join(ws)]
+            c["words"] += split_top(",".join(ws))
+        if excl:
+            argv += ["-x", ",".join(excl)]
+        for x in (ls if ls is not None else ([l] if l is not None else [])):
+            argv += ["-l", x]
+        if R is not None:
+            argv += ["-R", R]
+        c["argv"] = argv + c["cmd"]
+        out.append(c)
+    # 1. first word wins, overlapping host sets, every order
+    ov = ["u1@n[1-3]", t2 + ":u2@n[2-4]", t3 + ":n[3-5]", "bob@n3", "n[1-5]"]
+    for k in (2, 3):
+        for perm in itertools.permutations(ov, k):
+            mk([list(perm)], l="root")
+    for perm in itertools.permutations(ov[:4], 3):
+        mk([[w] for w in perm])
+    for perm in itertools.permutations(ov[:4]):
+        mk([list(perm[:2]), list(perm[2:])], R=t1)
+    # 2. one host named twice by the same word / by a plain word first
+    mk([["u1@n1", "n1", "u2@n1"]])
+    mk([["n1", "u2@n1", t2 + ":n1"]])
+    mk([["u1@n[1-2]", "u2@n[1-2]", "n[1-2]"]])
+    # 3. names that are string prefixes of one another
+    pre = ["alice@n1", "n10", "bob@n100"]
+    for perm in itertools.permutations(pre):
+        mk([list(perm)])
+    for a, b in itertools.permutations(["n1", "n10", "n100", "n1x", "web", "web1"], 2):
+        if a.startswith(b) or b.startswith(a):
+            mk([["alice@" + a, b]], l="zed")
+            mk([[t2 + ":" + a, t3 + ":bob@" + b]])
+    for one in ("n1", "n10", "n100"):
+        mk([["u2@" + one, "u1@n[1-10]", "n100"]])
+        mk([["u1@n[9-11]", "u2@" + one, "n100", "n1"]])
+    # 4. zero-padded look-alikes are different hosts
+    for ws in (["u1@n01", "u2@n1"], ["u2@n1", "u1@n01"], ["u1@n[01-03]", "u2@n[1-3]"], ["u2@n[1-3]", "u1@n[01-03]"],
+               ["u1@n001", "n01", "bob@n1"], ["u1@n[08-10]", "u2@n[8-10]"], ["u1@n10", "u2@n[08-10]", "bob@n[8-10]"]):
+        mk([ws])
+    # 5. two-bracket words
+    for ws in (["u9@f[1-2]-[0-1]"], [t2 + ":f[1-2]-[0-1]", "u1@f1-0"], ["u1@f1-0", t2 + ":bob@f[1-2]-[0-1]"],
+               ["u1@g[0-1]x[2-3]", "u2@g0x2", "g1x3"], ["g1x3", "u2@g[0-1]x[2-3]"]):
+        mk([ws])
+    # 6. where the default transport comes from
+    rank_ids = {"mrsh": "r08", "rsh": "r06", "ssh": "r04", "exec": "r07"}
+    for a, b in itertools.combinations(sorted(rank_ids), 2):
+        mk([["h1", "u1@h2"]], loaded=("r01", "r02", "r03", rank_ids[a], rank_ids[b]))
+    for a in sorted(rank_ids):
+        mk([["h1", t2 + ":h2"]], loaded=("r01", "r02", "r03", rank_ids[a]))
+    mk([["h1", t2 + ":h2"]], loaded=("r01", "r02", "r03"))              # nothing of the rank list loaded
+    mk([["h1", "h2"]], loaded=("r01", "r02", "r03"))
+    for R in (None, t2, "nosuch"):
+        for ev in (None, t3, "nosuch"):
+            mk([["h1", t1 + ":h2", "u1@h3"]], R=R, envtype=ev, loaded=("r01", "r02", "r03", "r04", "r06", "r08"))
+    # 7. -l against user@
+    mk([["u1@h1", "h2", t2 + ":h3", t2 + ":u2@h4"]], l="bob")
+    mk([["u1@h1", "h2"]], ls=["bob", "x_y"], l="x_y")
+    mk([["u1@h1", "h2"]])
+    # 7b. user names at the limit opt.c enforces (login_name_max_len, generated): the longest legal name arrives
+    #     whole, one byte more refuses the run -- from -l and from user@
+    m = re.search(r"def MO_LOGIN_NAME_MAX : Nat := (\d+)", open(os.path.join(os.path.dirname(HARNESS), "lean", "PdshVerif", "Gen",
+                                                                         "Modopt.lean")).read())
+    lim = int(m.group(1)) if m else 256
+    for n_ in (1, 8, 9, 16, 17, 31, 32, 33, lim - 1, lim, lim + 1, lim + 40):
+        mk([["h1", "u1@h2"]], l="L" * n_)
+        mk([["W" * n_ + "@h1", "h2"]], l="bob")
+        mk([[t2 + ":" + "V" * n_ + "@h1", "u1@h1"]])
+    # 8. rank = position in the list that is left after the exclusions
+    six = ["n1", "n2", "n3", "n4", "n5", "n6"]
+    for ex in (["n1"], ["n6"], ["n3"], ["n2", "n4"], ["n1", "n2", "n3"], ["n1", "n6"], ["n5", "n6"]):
+        mk([["n[1-6]"]], excl=ex, cmd=("echo", "%n"))
+        mk([["u1@n[1-3]", t2 + ":n[4-6]"]], excl=ex, l="bob")
+        mk([["n[1-2]"], ["u2@n[3-4]", "n[5-6]"]], excl=ex)
+    mk([["u1@n[1-3]", "n[5-6]"]], excl=["n1"])
+    mk([["k[9-11]", "u1@h[01-03]"]], excl=["k10", "h02"])
+    # 9. degenerate annotations: empty user, empty type, '::', annotation without hosts, '@' and ':' in odd places
+    for ws in (["@h1", "h2"], [t2 + ":@h1", "h1"], [":h1", "h2"], [t1 + "::h1"], ["u1@h1:x", "h2"], ["h1", "u1@"], ["h1", t2 + ":"],
+               ["u1@u2@h1", "u2@h1"], [t2 + ":" + t3 + ":h1"], ["h1@", "h2"], ["u1@:h1"], [t1 + ":u1@h1:2", "h1:2"]):
+        mk([ws], l="bob")
+    # more targets than one batch of threads (fanout 32): the rank is still the position in the list
+    mk([["n[1-40]"]], excl=["n7"])
+    mk([["u1@n[1-20]", t2 + ":n[15-45]"]], l="bob")
+    mk([["h[001-070]"]], excl=["h033", "h001"], cmd=("echo", "%n"))
+    return out
+
+
 def hostpart(w):
     """independent reading of [type:][user@]hosts, only used to GENERATE exclusions and targets"""
     if "@" in w:
@@ -456,6 +577,22 @@ def reg_line(c, transports, luser):
         "+".join(hx(t) for t in targets), " ".join(wtoks)), targets
 
 
+def regcli_line(c, transports, luser):
+    """the command line itself for the composed model (Driver/RcmdDrv.lean `regcli`): every -w / -x optarg as typed,
+    in order; the target list and the names each word registers are computed by C02's model of opt.c + hostlist.c"""
+    names = [transports[i] for i in c["loaded_ids"]]
+    opt = lambda v: "~" if v is None else hx(v)
+    evs = []
+    av = c["argv"][:len(c["argv"]) - len(c["cmd"])]
+    for i in range(0, len(av) - 1):
+        if av[i] == "-w":
+            evs.append("E=w:" + hx(av[i + 1]))
+        elif av[i] == "-x":
+            evs.append("E=x:" + hx(av[i + 1]))
+    return "regcli loaded=%s env=%s R=%s l=%s luser=%s %s" % (
+        "+".join(hx(n) for n in names), opt(c["envtype"]), opt(c["R"]), opt(c["l"]), hx(luser), " ".join(evs))
+
+
 def part_c(ctx, cov, dist, rng, repo, only=None):
     pool = preload.Pool(ctx)
     exe = os.path.join(repo, "src/pdsh/pdsh")
@@ -473,9 +610,11 @@ def part_c(ctx, cov, dist, rng, repo, only=None):
         margs.append("reexpand")
         ctx.log("hostlist_register_rcmd re-expands the names (F09-2BR repaired): model runs as `reexpand`")
     dist["reg_variant"] = " ".join(margs)
-    n = 2000 if ctx.quick() else 20000
+    n = 1600 if ctx.quick() else 20000
     recs = []
-    for c in ((gen_reg_case(rng, transports) for _ in range(n)) if only is None else only):
+    pinned = pinned_reg_cases(transports) if only is None else []
+    dist["reg_pinned"] = len(pinned)
+    for c in (itertools.chain(pinned, (gen_reg_case(rng, transports) for _ in range(n))) if only is None else only):
         files = [pool.by_id[i].file for i in c["loaded_ids"]]
         rng.shuffle(files)
         extra_env = {"PDSH_RCMD_TYPE": c["envtype"]} if c["envtype"] is not None else {}
@@ -497,10 +636,20 @@ def part_c(ctx, cov, dist, rng, repo, only=None):
     text = "".join(l + "\n" for _, _, l, _ in recs)
     ml = ctx.model("rcmd", text, args=margs)
     sl = ctx.model("rcmd", text, args=["spec"])
+    # end to end: the same runs computed from the command line alone (only when the code registers the re-expanded
+    # names, which is what the composed model mirrors)
+    cl = ctx.model("rcmd", "".join(regcli_line(c, transports, luser) + "\n" for c, _, _, _ in recs), args=margs) \
+        if "reexpand" in margs else [None] * len(recs)
+    dist["reg_cli_composed"] = 0
     distinct = set()
-    for (c, r, line, targets), m, s in zip(recs, ml, sl):
+    for (c, r, line, targets), m, s, cm in zip(recs, ml, sl, cl):
         cov["evaluations"] += 1
         dist["reg"] += 1
+        if cm is not None:
+            dist["reg_cli_composed"] += 1
+            if cm != m:
+                ctx.disagreement("registry model fed by the check's expander vs composed with C02's hostlist model",
+                                 "from the expander `%s`, from the command line `%s`" % (m[:300], cm[:300]), {"gen": c})
         reg_branches(c, m, s, dist["branches"])
         log = [l.split() for l in r["log"] if l.startswith("rcmd ")]
         log.sort(key=lambda w: int(w[6]))
@@ -586,7 +735,21 @@ def part_b(ctx, cov, dist, rng, repo, variant, only=None):
             g["stdin"] = " ".join(rng.choice(["a", "%h", "%u-%n", "x%%y", "%x", "b7", "%h%n"]) for _ in range(rng.randrange(0, 4)))
             g["args"] = []
         return g
-    for g in ((gen() for _ in range(n)) if only is None else only):
+    def pinned():
+        """every run: each %-sequence alone, at the start, in the middle, at the end, doubled and as two arguments;
+        arguments whose result crosses the growth steps of the result string"""
+        out = []
+        toks = ["%h", "%u", "%n", "%%", "%x", "%", "", "%%h", "%h%u", "%%%", "%%%%", "%n%", "%hh", "%%u%%"]
+        for t in toks:
+            for args in ([t], ["x" + t], [t + "y"], ["x" + t + "y"], [t + t], [t, t], ["a", t, "b"]):
+                out.append({"hosts": ["h1", "n7"], "user": "bob", "args": args, "pinned": True})
+        for base in (32, 64, 1024, 4096):
+            for k in (base - 3, base - 2, base - 1, base):
+                out.append({"hosts": ["zz"], "user": None, "args": ["a" * k + "%h%n", "%u" + "b" * k + "%"], "pinned": True})
+        for line in ("", "a", "%h", "%u-%n x%%y", "%x %", "b7 %h%n  c"):
+            out.append({"hosts": ["h2", "h3"], "user": "u1", "args": [], "stdin": line, "pinned": True})
+        return out
+    for g in (itertools.chain(pinned(), (gen() for _ in range(n))) if only is None else only):
         hosts, user, args = g["hosts"], g["user"], g["args"]
         inter = g.get("stdin")
         argv = ["-R", "exec", "-w", ",".join(hosts)] + (["-l", user] if user else []) + ([] if inter is not None else [helper] + args)
@@ -651,12 +814,18 @@ def part_b(ctx, cov, dist, rng, repo, variant, only=None):
 
 # ------------------------------------------------------------------------------------- (d) rsh wire request
 
-PEER_ADDRS = ["127.9.17.%d" % i for i in range(1, 5)]
+PEER_PREFIX = "127.9.17."                      # canonical spelling in generated cases and replay files
+PEER_ADDRS = [PEER_PREFIX + "%d" % i for i in range(1, 5)]
 
 
 class RshPeer:
     """scripted rsh server: records the bytes received before its first reply, connects back to the
-    announced stderr port from a reserved port, answers "\\0", sends one line, closes"""
+    announced stderr port from a reserved port, answers "\\0", sends one line, closes.
+
+    Port 514 is fixed by the protocol, so two runs of this check at the same time (sweeps, several agents)
+    cannot both listen on the same loopback address: every run takes the first FREE group of four
+    addresses 127.19.X.1-4 (all of 127/8 is loopback); cases and replay files spell the canonical
+    127.9.17.N, `tr` maps them to the addresses of this run."""
 
     def __init__(self):
         import socket
@@ -664,13 +833,39 @@ class RshPeer:
         self.got = []
         self.lock = threading.Lock()
         self.socks = []
-        for a in PEER_ADDRS:
-            s = socket.socket()
-            s.setsockopt(socket.SOL_SOCKET, socket.SO_REUSEADDR, 1)
-            s.bind((a, 514))
-            s.listen(16)
-            self.socks.append(s)
-            threading.Thread(target=self.accept_loop, args=(s, a), daemon=True).start()
+        last = None
+        for attempt in range(120):
+            prefix = PEER_PREFIX if attempt == 0 else "127.19.%d." % ((os.getpid() * 7 + attempt * 13) % 250 + 2)
+            socks = []
+            try:
+                for i in range(1, 5):
+                    s = socket.socket()
+                    s.setsockopt(socket.SOL_SOCKET, socket.SO_REUSEADDR, 1)
+                    socks.append(s)
+                    s.bind((prefix + str(i), 514))
+                    s.listen(16)
+            except OSError as e:
+                last = e
+                for s in socks:
+                    s.close()
+                continue
+            self.prefix = prefix
+            self.socks = socks
+            break
+        else:
+            raise last
+        for i, s in enumerate(self.socks):
+            threading.Thread(target=self.accept_loop, args=(s, prefix + str(i + 1)), daemon=True).start()
+
+    def tr(self, x):
+        """canonical 127.9.17.N -> this run's address (strings, lists and dict keys)"""
+        if isinstance(x, str):
+            return x.replace(PEER_PREFIX, self.prefix)
+        if isinstance(x, list):
+            return [self.tr(y) for y in x]
+        if isinstance(x, dict):
+            return {self.tr(k): v for k, v in x.items()}
+        return x
 
     def accept_loop(self, s, addr):
         import threading
@@ -706,6 +901,10 @@ class RshPeer:
                     except OSError:
                         back.close()
                         back = None
+            if backok is False:
+                # pdsh sits in xpoll until its listening socket or this one becomes readable: nothing more will
+                # come; what was received so far is the observation
+                c.settimeout(0.5)
             while data.count(b"\0") < 4:
                 b = c.recv(65536)
                 if not b:
@@ -713,15 +912,25 @@ class RshPeer:
                 data += b
             with self.lock:
                 self.got.append((addr, peer[1], data, backok))
+            if data.count(b"\0") < 4:
+                return
             c.sendall(b"\0")
             c.sendall(b"ok\n")
         except OSError:
             with self.lock:
                 self.got.append((addr, peer[1], data, backok))
         finally:
-            c.close()
             if back:
+                # the side that closes first keeps its local port in TIME_WAIT for a minute; here that would be a
+                # RESERVED port (the source of the back-connection), and pdsh's rresvport(), which binds without
+                # SO_REUSEADDR, finds "all ports in use" after some 500 runs.  RST instead of FIN: no TIME_WAIT.
+                import struct
+                try:
+                    back.setsockopt(socket.SOL_SOCKET, socket.SO_LINGER, struct.pack("ii", 1, 0))
+                except OSError:
+                    pass
                 back.close()
+            c.close()
 
     def take(self):
         with self.lock:
@@ -731,6 +940,20 @@ class RshPeer:
     def close(self):
         for s in self.socks:
             s.close()
+
+
+def reserved_ports_in_use():
+    """how many of the ports 512..1023 are the local port of some TCP socket (any state, TIME_WAIT included)"""
+    ports = set()
+    try:
+        for line in open("/proc/net/tcp").read().splitlines()[1:]:
+            f = line.split()
+            p_ = int(f[1].split(":")[1], 16)
+            if 512 <= p_ <= 1023 and p_ != 514:
+                ports.add(p_)
+    except (OSError, ValueError, IndexError):
+        pass
+    return len(ports)
 
 
 def part_d(ctx, cov, dist, rng, repo, only=None):
@@ -744,7 +967,7 @@ def part_d(ctx, cov, dist, rng, repo, only=None):
     luser = pwd.getpwuid(os.getuid()).pw_name
     n = 60 if ctx.quick() else 500
     dist["rsh"] = 0
-    nviol0 = len(ctx.violations)
+    recs, slow = [], 0
     try:
         def gen():
             addrs = rng.sample(PEER_ADDRS, rng.choice([1, 2, 3]))
@@ -769,9 +992,12 @@ def part_d(ctx, cov, dist, rng, repo, only=None):
             return {"addrs": addrs, "words": words, "want": want, "l": l, "cmd": cmd}
 
         def sweep():
-            """one request for EVERY value of  strlen(luser)+1+strlen(ruser)+1+strlen(cmd)  in the windows
-            [c-8, c+8] around LINEBUFSIZE (generated from dsh.h of the tree under test) and 1024, 4096, 8192,
-            65536, for two (luser, ruser) pairs of different lengths"""
+            """one request for EVERY value of  strlen(luser)+1+strlen(ruser)+1+strlen(cmd)  in a window around each
+            buffer size c = LINEBUFSIZE (generated from dsh.h of the tree under test), 256, 512, 1024, 4096, 8192,
+            65536.  With the local user as remote user the window is [c-14, c+18+2*(len(luser)-4)]: it contains
+            c +-8 for each of the totals a maintainer might compare with a buffer size -- the three strings with
+            or without the last NUL, the command alone, the whole request including the port field; with a longer
+            remote user [c-8, c+8]"""
             m = re.search(r"def LINEBUFSIZE : Nat := (\d+)", open(os.path.join(os.path.dirname(HARNESS), "lean", "PdshVerif", "Gen",
                                                                           "Dsh.lean")).read())
             lbs = int(m.group(1)) if m else 2048
@@ -779,68 +1005,303 @@ def part_d(ctx, cov, dist, rng, repo, only=None):
             out = []
             for ruser in (None, "a_longer_remote_user"):
                 ru = ruser or luser
-                for c in sorted({lbs, 1024, 4096, 8192, 65536}):
-                    for s_ in range(c - 8, c + 9):
+                for c in sorted({lbs, 256, 512, 1024, 4096, 8192, 65536}):
+                    lo, hi = (c - 14, c + 8 + len(luser) + len(ru) + 2) if ruser is None else (c - 8, c + 8)
+                    for s_ in range(lo, hi + 1):
                         k = s_ - len(luser) - len(ru) - 2
                         out.append({"addrs": [PEER_ADDRS[0]], "words": [PEER_ADDRS[0]], "want": {PEER_ADDRS[0]: None}, "l": ruser,
                                     "cmd": ["e " + "y" * (k - 3) + "Z"], "sweep": s_})
             return out
+
+        def pinned():
+            """run first in every run: (1) the reserved port directly below the primary socket's port is busy (this
+            check holds every even port of 960..1022 while pdsh runs), so rresvport() has to move on and the port
+            announced in the request must be the one it really got; (2) remote users of every legal shape, from -l
+            and from user@"""
+            out = []
+            a1, a2, a3 = PEER_ADDRS[:3]
+            for words, l, cmd in (([a1], None, ["true"]), ([a1, "bob@" + a2, a3], "u2", ["echo", "a  b", "%h%%"]),
+                                  ([a2], None, ["e", "y" * 2100]), (["x_y@" + a3, a1], None, ["sh", "-c", "x;y  z"])):
+                want = {w.split("@")[-1]: (w.split("@")[0] if "@" in w else None) for w in words}
+                out.append({"addrs": [w.split("@")[-1] for w in words], "words": words, "want": want, "l": l, "cmd": cmd,
+                            "busy": True})
+            shapes = ["a", "x_y", "u-1", "u.v", "U9", "9lives", "svc$", "_", "a" * 31, "b" * 32, "c" * 33, "d" * 64, "e" * 255,
+                      "root", luser]
+            for i, u in enumerate(shapes):
+                if i % 2:
+                    out.append({"addrs": [a1, a2], "words": [u + "@" + a1, a2], "want": {a1: u, a2: None}, "l": None,
+                                "cmd": ["id"], "shape": True})
+                else:
+                    out.append({"addrs": [a1, a2], "words": [a1, "bob@" + a2], "want": {a1: None, a2: "bob"}, "l": u,
+                                "cmd": ["id"], "shape": True})
+            return out
+
+        def hold_ports(ports):
+            import socket
+            held = []
+            for p_ in ports:
+                s_ = socket.socket()
+                try:
+                    s_.bind(("0.0.0.0", p_))           # bound, not listening: a connection attempt is refused
+                    held.append(s_)
+                except OSError:
+                    s_.close()                         # somebody else has it: busy all the same
+            return held
         import itertools as _it
-        for g in (_it.chain(sweep(), (gen() for _ in range(n))) if only is None else only):
-            if len(ctx.violations) - nviol0 >= 3:
-                break               # a broken handshake makes every run wait for time-outs
+        for g in (_it.chain(pinned(), sweep(), (gen() for _ in range(n))) if only is None else only):
+            if slow >= 3:
+                break
+            g = dict(g, addrs=peer.tr(g["addrs"]), words=peer.tr(g["words"]), want=peer.tr(g["want"]))
             addrs, words, want, l, cmd = g["addrs"], g["words"], g["want"], g["l"], g["cmd"]
             argv = ["-R", "rsh", "-w", ",".join(words)] + (["-l", l] if l else []) + cmd
-            try:
-                q = subprocess.run([exe] + argv, env={"PATH": "/usr/bin:/bin"}, stdout=subprocess.PIPE,
-                                   stderr=subprocess.PIPE, stdin=subprocess.DEVNULL, timeout=60, cwd=ctx.scratch)
-            except subprocess.TimeoutExpired:
-                ctx.offender("timeout", "pdsh -R rsh against the scripted peer does not finish", {"argv": argv, "gen": g})
-                peer.take()
-                continue
-            got = peer.take()
-            case = {"argv": argv, "gen": g, "rc": q.returncode, "stderr": q.stderr.decode("latin-1")[-300:]}
-            lines = []
-            for addr, _, data, backok in got:
-                lines.append("parse " + bh(data))
-            parsed = ctx.model("rcmd", "".join(x + "\n" for x in lines), args=["spec"]) if lines else []
-            seen = {}
-            for (addr, _, data, backok), pl in zip(got, parsed):
-                cov["evaluations"] += 1
-                dist["rsh"] += 1
-                if not pl.startswith("ok "):
-                    ctx.offender("rsh:malformed-request", "the rsh request for %s (%d bytes) is not four NUL-terminated "
-                                 "fields: %r ..." % (addr, len(data), data[:80]), dict(case, request_len=len(data)))
+            q, got = None, []
+            timeouts = 0
+            for attempt in range(6):
+                held = hold_ports(range(1022, 958, -2)) if g.get("busy") else []
+                try:
+                    q = subprocess.run([exe] + argv, env={"PATH": "/usr/bin:/bin"}, stdout=subprocess.PIPE,
+                                       stderr=subprocess.PIPE, stdin=subprocess.DEVNULL, timeout=60, cwd=ctx.scratch)
+                except subprocess.TimeoutExpired:
+                    q = None
+                    timeouts += 1
+                finally:
+                    for s_ in held:
+                        s_.close()
+                got = peer.take()
+                if q is None:
+                    if timeouts >= 2:
+                        break
+                    continue                # a time-out alone is tried once more before it is reported
+                # The machine's 512 reserved ports are shared with every other process (other checks running at the
+                # same time, their sockets in TIME_WAIT).  When they run out pdsh either says so ("all ports in use",
+                # no connection) or -- when only the stderr socket gets none -- silently drops a connection it has
+                # just opened.  Both are the environment, not the handshake: if most reserved ports are taken, wait
+                # for them and try the case again; an anomaly that shows again with ports to spare is reported.
+                odd = b"all ports in use" in q.stderr or len(got) != len(addrs) or \
+                    any(data.count(b"\0") < 4 for _, _, data, _ in got)
+                if odd and attempt < 5 and reserved_ports_in_use() > 300:
+                    dist["rsh_reserved_ports_exhausted_retries"] = dist.get("rsh_reserved_ports_exhausted_retries", 0) + 1
+                    for _ in range(16):
+                        time.sleep(5)
+                        if reserved_ports_in_use() <= 200:
+                            break
                     continue
-                pf, lu, ru, cm = [unhx(x) for x in pl.split()[1:]]
-                if g.get("sweep") is not None:
-                    # the total the sweep is about, measured on what the peer really received
-                    dist.setdefault("rsh_sweep_lengths", {}).setdefault("luser=%d,ruser=%d" % (len(lu), len(ru)), []).append(
-                        len(lu) + 1 + len(ru) + 1 + len(cm))
-                exp_ru = want.get(addr) or l or luser
-                exp_cmd = " ".join(cmd)
-                okport = (pf == "" and backok is None) or (pf.isdigit() and backok is True)
-                if not (okport and lu == luser and ru == exp_ru and cm == exp_cmd):
-                    ctx.offender("rsh:request", "rsh request for %s is (port %r, local %r, remote %r, command %r, stderr "
-                                                "channel connected: %s); specified (a listening port, %r, %r, %r)" % (
-                        addr, pf, lu, ru, cm[:60] + ("..." if len(cm) > 60 else ""), backok, luser, exp_ru,
-                        exp_cmd[:60] + ("..." if len(exp_cmd) > 60 else "")), dict(case, request_len=len(data), command_len=len(cm),
-                                                                                    expected_command_len=len(exp_cmd)))
-                dist.setdefault("rsh_request_len", {})
-                bucket = "<=1024" if len(data) <= 1024 else "<=2048" if len(data) <= 2048 else "<=4096" if len(data) <= 4096 \
-                    else "<=8192" if len(data) <= 8192 else ">8192"
-                dist["rsh_request_len"][bucket] = dist["rsh_request_len"].get(bucket, 0) + 1
-                # correspondence with the model of xrcmd's write order
-                ml = ctx.model("rcmd", "writes %s %s %s %s\n" % (pf if pf else "none", hx(luser), hx(exp_ru), hx(exp_cmd)),
-                               args=["model", "unchanged"])
-                if ml[0] != bh(data):
-                    ctx.disagreement("rsh request model vs xrcmd", "peer got %s, model %s" % (bh(data), ml[0]), case)
-                seen[addr] = seen.get(addr, 0) + 1
-            for a in addrs:
-                if seen.get(a, 0) != 1 and not any(g[0] == a for g in got):
-                    ctx.offender("rsh:no-connection", "target %s was not contacted through rsh" % a, case)
+                break
+            if q is None:
+                ctx.offender("timeout", "pdsh -R rsh against the scripted peer does not finish", {"argv": argv, "gen": g})
+                slow += 1
+                continue
+            if g.get("busy"):
+                dist["rsh_busy_port_cases"] = dist.get("rsh_busy_port_cases", 0) + 1
+            if g.get("shape"):
+                dist["rsh_user_shape_cases"] = dist.get("rsh_user_shape_cases", 0) + 1
+            case = {"argv": argv, "gen": g, "rc": q.returncode, "stderr": q.stderr.decode("latin-1")[-300:]}
+            recs.append((g, case, got))
+            # a broken handshake makes every run wait for time-outs: stop generating after three such runs (the
+            # verdicts come from the specification below; this only bounds the time)
+            if any(data.count(b"\0") < 4 or backok is False for _, _, data, backok in got) or len(got) < len(addrs):
+                slow += 1
+        # verdicts, in two batches: what the specification parses out of each received request, and what the
+        # model of xrcmd's write order sends for the specified fields
+        flat = [(g, case, x) for g, case, got in recs for x in got]
+        parsed = ctx.model("rcmd", "".join("parse " + bh(x[2]) + "\n" for _, _, x in flat), args=["spec"]) if flat else []
+        wl = []
+        for (g, case, (addr, sport, data, backok)), pl in zip(flat, parsed):
+            pf = unhx(pl.split()[1]) if pl.startswith("ok ") else ""
+            wl.append("writes %s %s %s %s\n" % (pf if pf else "none", hx(luser), hx(g["want"].get(addr) or g["l"] or luser),
+                                                hx(" ".join(g["cmd"]))))
+        written = ctx.model("rcmd", "".join(wl), args=["model", "unchanged"]) if wl else []
+        seen = {}
+        for (g, case, (addr, sport, data, backok)), pl, ml in zip(flat, parsed, written):
+            cov["evaluations"] += 1
+            dist["rsh"] += 1
+            pf0 = data.split(b"\0")[0]
+            if pf0.isdigit() and int(pf0) != sport - 1:
+                # rresvport() had to pass over a busy port between the primary socket's and the stderr socket's
+                dist["rsh_stderr_port_not_adjacent"] = dist.get("rsh_stderr_port_not_adjacent", 0) + 1
+                if g.get("busy"):
+                    dist["rsh_busy_port_effective"] = dist.get("rsh_busy_port_effective", 0) + 1
+            seen[(id(case), addr)] = seen.get((id(case), addr), 0) + 1
+            if not pl.startswith("ok "):
+                ctx.offender("rsh:malformed-request", "the rsh request for %s (%d bytes) is not four NUL-terminated "
+                             "fields: %r ... (stderr channel connected: %s)" % (addr, len(data), data[:80], backok),
+                             dict(case, request_len=len(data)))
+                continue
+            pf, lu, ru, cm = [unhx(x) for x in pl.split()[1:]]
+            if g.get("sweep") is not None:
+                # the total the sweep is about, measured on what the peer really received
+                dist.setdefault("rsh_sweep_lengths", {}).setdefault("luser=%d,ruser=%d" % (len(lu), len(ru)), []).append(
+                    len(lu) + 1 + len(ru) + 1 + len(cm))
+            exp_ru = g["want"].get(addr) or g["l"] or luser
+            exp_cmd = " ".join(g["cmd"])
+            okport = (pf == "" and backok is None) or (pf.isdigit() and backok is True)
+            if not (okport and lu == luser and ru == exp_ru and cm == exp_cmd):
+                ctx.offender("rsh:request", "rsh request for %s is (port %r, local %r, remote %r, command %r, stderr "
+                                            "channel connected: %s); specified (a listening port, %r, %r, %r)" % (
+                    addr, pf, lu, ru, cm[:60] + ("..." if len(cm) > 60 else ""), backok, luser, exp_ru,
+                    exp_cmd[:60] + ("..." if len(exp_cmd) > 60 else "")), dict(case, request_len=len(data), command_len=len(cm),
+                                                                                expected_command_len=len(exp_cmd)))
+            dist.setdefault("rsh_request_len", {})
+            bucket = "<=1024" if len(data) <= 1024 else "<=2048" if len(data) <= 2048 else "<=4096" if len(data) <= 4096 \
+                else "<=8192" if len(data) <= 8192 else ">8192"
+            dist["rsh_request_len"][bucket] = dist["rsh_request_len"].get(bucket, 0) + 1
+            # correspondence with the model of xrcmd's write order
+            if ml != bh(data):
+                ctx.disagreement("rsh request model vs xrcmd", "peer got %s, model %s" % (bh(data)[:400], ml[:400]), case)
+        for g, case, got in recs:
+            for a in g["addrs"]:
+                if seen.get((id(case), a), 0) != 1:
+                    ctx.offender("rsh:no-connection", "target %s was contacted %d times through rsh" % (
+                        a, seen.get((id(case), a), 0)), case)
     finally:
         peer.close()
+
+
+# ------------------------------------------------------------------------------------- (f) xrcmd in a scripted world
+
+def part_f(ctx, cov, dist, rng, only=None):
+    """the unmodified xrcmd.c in harness/xrcmd_harness.c: which reserved ports are busy, what every connect() answers,
+    whether sleep() is interrupted, what xpoll()/accept() report and what the peer replies are the case; observed:
+    every call on xrcmd's sockets in order.  vs `pdshmodel rcmd model` (xr lines, Exec/Xrcmd.lean) and judged by
+    `pdshmodel rcmd spec` (xrobs lines, Exec/XrcmdSpec.lean): nothing written before a connect() succeeded; a call
+    that returns a socket has written exactly port NUL luser NUL ruser NUL cmd NUL with the port of a socket that is
+    listening when the first byte goes out (empty without the stderr channel)"""
+    exe = os.path.join(ctx.scratch, "xrcmd_harness")
+    if not ctx.cc(exe, [os.path.join(HARNESS, "xrcmd_harness.c")], san=True, assertions=True):
+        return
+    conns = ["o", "ao", "aao", "ro", "rro", "aro", "rao", "rrrrro", "rrrrrr", "rrrrrro", "x", "ax", "rx", "a" * 12 + "o", "-",
+             "arararo", "aaax"]
+    busys = ["-", "1022", "1023", "1022,1021,1020", "1023,1022", ",".join(str(x) for x in range(1022, 958, -2)),
+             ",".join(str(x) for x in range(513, 1024)), ",".join(str(x) for x in range(512, 1024)),
+             ",".join(str(x) for x in range(514, 1024)), "1021", ",".join(str(x) for x in range(1023, 900, -1))]
+    accs = ["1000", "512", "1023", "511", "1024", "5000", "0", "~", "65535"]
+    replies = ["00", "-", "~", hx("\x01no\n"), hx("\x00A"), hx("\x01" + "e" * 100), hx("\n"), hx("\x01")]
+    users = ["root", "a", "x_y", "u" * 32, "svc$"]
+    cmds = ["true", "", "echo a  b %h%%", "y" * 2040, "y" * 2048, "y" * 5000, "e " + "z" * 2039]
+
+    def line(errch, lu, ru, cmd, busy, cs, sl, po, acc, reply):
+        return "xr %d %s %s %s %s %s %d %d %s %s" % (errch, hx(lu), hx(ru), hx(cmd), busy, cs, sl, po, acc, reply)
+    cases = []
+    if only is None:
+        for errch in (1, 0):
+            for cs in conns:
+                for busy in busys:
+                    cases.append(line(errch, "root", "bob", "true", busy, cs, 1, 1, "1000", "00"))
+            for cs in ("ro", "rrro", "rrrrrr"):
+                cases.append(line(errch, "root", "bob", "true", "-", cs, 0, 1, "1000", "00"))
+            for acc in accs:
+                for po in (1, 0):
+                    for busy in ("-", "1022"):
+                        cases.append(line(errch, "root", "bob", "id", busy, "o", 1, po, acc, "00"))
+            for reply in replies:
+                for busy in ("-", "1022,1021"):
+                    cases.append(line(errch, "root", "bob", "id", busy, "ao", 1, 1, "900", reply))
+            for lu in users:
+                for ru in users[1:]:
+                    cases.append(line(errch, lu, ru, "id", "1022", "o", 1, 1, "1000", "00"))
+            for cmd in cmds:
+                cases.append(line(errch, "root", "bob", cmd, "1022", "ao", 1, 1, "1000", "00"))
+        n = 1500 if ctx.quick() else 20000
+        for _ in range(n):
+            cs = rng.choice(conns) if rng.random() < 0.6 else "".join(rng.choice("aarrox") for _ in range(rng.randrange(1, 9)))
+            busy = rng.choice(busys) if rng.random() < 0.5 else \
+                ",".join(str(x) for x in sorted(rng.sample(range(1000, 1024), rng.randrange(0, 12)), reverse=True)) or "-"
+            cases.append(line(rng.choice([1, 1, 0]), rng.choice(users), rng.choice(users), rng.choice(cmds), busy, cs,
+                              rng.choice([1, 1, 1, 0]), rng.choice([1, 1, 1, 0]), rng.choice(accs + ["1000"] * 6),
+                              rng.choice(replies + ["00"] * 8)))
+        # the peer refuses with an error text: xrcmd copies it into a LINEBUFSIZE stack buffer up to the first newline.
+        # Texts that end before, on and behind the end of that buffer, LAST in the batch (an abort ends the batch)
+        m_ = re.search(r"def LINEBUFSIZE : Nat := (\d+)", open(os.path.join(os.path.dirname(HARNESS), "lean", "PdshVerif", "Gen",
+                                                                        "Dsh.lean")).read())
+        lbs = int(m_.group(1)) if m_ else 2048
+        for n_ in (lbs - 4, lbs - 3, lbs - 2, lbs - 1, lbs, lbs + 900):
+            cases.append(line(1, "root", "bob", "id", "-", "o", 1, 1, "1000", hx("\x01" + "e" * n_)))
+            cases.append(line(0, "root", "bob", "id", "-", "o", 1, 1, "1000", hx("\x01" + "e" * (n_ - 1) + "\n")))
+    else:
+        cases = list(only)
+    # an abort ends a batch: report the case, go on behind it (at most 8 times), so that the cases behind a known
+    # finding are still run
+    m_ = re.search(r"def LINEBUFSIZE : Nat := (\d+)", open(os.path.join(os.path.dirname(HARNESS), "lean", "PdshVerif", "Gen",
+                                                                    "Dsh.lean")).read())
+    lbs = int(m_.group(1)) if m_ else 2048
+    done_cases, ans, todo = [], [], list(cases)
+    for _round in range(8):
+        if not todo:
+            break
+        (a_, crash), = run_batch([exe], [todo], env=SAN_ENV, timeout=600)
+        done_cases += todo[:len(a_)]
+        ans += a_
+        if crash is None:
+            todo = []
+            break
+        k = len(a_)
+        sig = "crash"
+        if k < len(todo):
+            rp = todo[k].split()[10]
+            rb = bytes.fromhex(rp) if rp not in ("-", "~") else b""
+            text = rb[1:].split(b"\n")[0] + (b"\n" if b"\n" in rb[1:] else b"")
+            if rb[:1] not in (b"", b"\0") and len(text) + (0 if text.endswith(b"\n") else 1) + 1 > lbs:
+                sig = "xr:error-reply-overflow"      # the known-finding class: decided from the INPUT alone
+        dist["offenders"][sig] = dist["offenders"].get(sig, 0) + 1
+        ctx.offender(sig, "xrcmd.c aborts (sanitizer report / fault) on `%s`: %s" % (todo[k][:120] if k < len(todo) else "?",
+                                                                                    crash[-700:]),
+                     {"xr": todo[k] if k < len(todo) else None})
+        todo = todo[k + 1:]
+    cases = done_cases
+    ml = ctx.model("rcmd", "".join(c + "\n" for c in cases), args=["model", "unchanged"]) if cases else []
+    obs = []
+    for c, a in zip(cases, ans):
+        w = c.split()
+        obs.append("xrobs %s %s %s %s %s" % (w[1], w[2], w[3], w[4], a))
+    sl = ctx.model("rcmd", "".join(o + "\n" for o in obs), args=["spec"]) if obs else []
+    dist["xr"] = 0
+    b = dist.setdefault("xr_branches", {})
+
+    def hit(k):
+        b[k] = b.get(k, 0) + 1
+    seen = set()
+    for c, a, m, s_ in zip(cases, ans, ml, sl):
+        cov["evaluations"] += 1
+        dist["xr"] += 1
+        w = c.split()
+        hit("result:" + a.split()[0])
+        hit("stderr channel" if w[1] == "1" else "no stderr channel (fd2p NULL)")
+        evs = a.split()[1:]
+        if any(e.startswith("c") and e.endswith(":a") for e in evs):
+            hit("connect: EADDRINUSE, next lower port")
+        if any(e.startswith("s") for e in evs):
+            hit("connect: ECONNREFUSED, retry after sleep" + ("" if w[7] == "1" else " (interrupted)"))
+        if sum(1 for e in evs if e.startswith("s") and e[1:].isdigit()) >= 5:
+            hit("connect: refused until the back-off is used up")
+        binds = [int(e[1:]) for e in evs if e.startswith("b") and e[1:].isdigit()]
+        conn_ok = [int(e[1:].split(":")[0]) for e in evs if e.startswith("c") and e.endswith(":o") and e[1:].split(":")[0].isdigit()]
+        lis = [int(e[1:]) for e in evs if e.startswith("l") and e[1:].isdigit()]
+        if any(e.startswith("leak") for e in evs):
+            hit("a socket left open on return (leak)")
+        if conn_ok and lis and lis[0] != conn_ok[0] - 1:
+            hit("stderr port not directly below the primary port")
+        if not binds:
+            hit("no reserved port free at all")
+        if conn_ok and w[1] == "1" and not lis:
+            hit("no reserved port left for the stderr socket")
+        if w[9].isdigit() and not (512 <= int(w[9]) <= 1023) and any(e.startswith("a") for e in evs) and a.startswith("fail"):
+            hit("back-connection from a non-reserved port refused")
+        if "~" == w[9] and lis:
+            hit("accept fails")
+        if w[8] == "0" and lis:
+            hit("xpoll reports the wrong socket")
+        if w[10] != "00" and conn_ok and a.startswith("fail"):
+            hit("peer's reply is not a NUL byte")
+        if a != m:
+            ctx.disagreement("xrcmd model vs xrcmd.c", "`%s`: impl `%s` model `%s`" % (c[:200], a[:300], m[:300]), {"xr": c})
+        if conn_ok:
+            seen.add(c)
+        if s_ != "ok":
+            ctx.offender("xr:request", "xrcmd in the scripted world `%s`: the calls `%s` violate the specification of the "
+                                       "handshake (%s)" % (" ".join(w[5:]), a[:300], s_), {"xr": c, "impl": a, "model": m})
+    cov["distinct_nontrivial"] += len(seen)
+    if cases:
+        cov["samples"].append({"xr": cases[min(40, len(cases) - 1)], "observed": ans[min(40, len(ans) - 1)] if ans else None})
 
 
 # ------------------------------------------------------------------------------------- (e) ssh argument vector
@@ -954,7 +1415,9 @@ def replay_items(ctx):
     ra, rb, rc_, rd, re_ = [], [], [], [], []
     for it in items:
         g = it.get("gen")
-        if g and g.get("ssh"):
+        if it.get("xr"):
+            ra.append(it["xr"])
+        elif g and g.get("ssh"):
             re_.append(g)
         elif it.get("line") and it["line"].split()[0] in ("fmt", "args"):
             ra.append(it["line"])
@@ -978,7 +1441,7 @@ def replay_items(ctx):
 
 def run(ctx):
     rng = ctx.rng
-    ctx.gen_consts(["modopt", "dsh"])
+    ctx.gen_consts(["modopt", "dsh", "hostlist"])      # hostlist: the composed model (regcli) runs C02's hostlist model
     ctx.lean_build([PROPS, "pdshmodel"])
     ctx.audit(PROPS)
     cov = {"evaluations": 0, "distinct_nontrivial": 0, "samples": [],
@@ -987,15 +1450,23 @@ def run(ctx):
                    "argument vectors with empty and %-terminated members; (b) pdsh -R exec with an argv-dumping helper; "
                    "(c) command lines mixing plain / user@ / type:user@ / type: words over overlapping host sets "
                    "(several -w, comma lists, ranges, zero padding, rare two-bracket words), -l, -R, PDSH_RCMD_TYPE, -x, "
-                   "malformed words, unknown types, with 3-6 fake transports loaded; (d) pdsh -R rsh against a scripted "
-                   "peer on loopback recording the request bytes; non-trivial = argument containing "
+                   "malformed words, unknown types, with 3-6 fake transports loaded, preceded by ~260 pinned cases "
+                   "(every order of overlapping words, prefix-related and zero-padded names, two-bracket words, every "
+                   "source of the default transport, user names at the length limit, rank after exclusion); (d) pdsh -R "
+                   "rsh against a scripted peer on loopback recording the request bytes: busy reserved ports, user "
+                   "shapes, every request length around each buffer size, random; (f) xrcmd.c in a scripted network: "
+                   "busy-port sets x connect scripts x accept/poll/reply outcomes; non-trivial = argument containing "
                    "'%' / command line with two annotated words or an annotated word over a repeated host; distinct by text"}
     dist = {"fmt": 0, "args": 0, "cli": 0, "reg": 0, "reg_fatal": 0, "reg_nodomain": 0, "nodomain": 0, "offenders": {},
             "branches": {}}
     if getattr(ctx, "replay", None):
         ra, rb, rc_, rd, re_ = replay_items(ctx)
         cov["rule"] = "replay of %s: exactly the recorded case(s)" % ctx.replay
+        rf = [x for x in ra if x.startswith("xr ")]
+        ra = [x for x in ra if not x.startswith("xr ")]
         variant = part_a(ctx, cov, dist, rng, only=ra)
+        if rf:
+            part_f(ctx, cov, dist, rng, only=rf)
         repo = ctx.repo_build() if (rb or rc_ or rd or re_) else None
         if repo is not None and variant is not None:
             if rb:
@@ -1010,7 +1481,8 @@ def run(ctx):
         variant = part_a(ctx, cov, dist, rng)
         repo = ctx.repo_build()
         if repo is not None and variant is not None:
-            for name, f in (("-R exec", lambda: part_b(ctx, cov, dist, rng, repo, variant)),
+            for name, f in (("xrcmd scripted", lambda: part_f(ctx, cov, dist, rng)),
+                            ("-R exec", lambda: part_b(ctx, cov, dist, rng, repo, variant)),
                             ("registry", lambda: part_c(ctx, cov, dist, rng, repo)),
                             ("rsh wire", lambda: part_d(ctx, cov, dist, rng, repo)),
                             ("ssh argv", lambda: part_e(ctx, cov, dist, rng, repo, variant))):
@@ -1022,11 +1494,16 @@ def run(ctx):
         LEVEL, cov,
         assumptions=["argument strings are NUL-free C strings; what lies behind the terminator is part of the case",
                      "host expansion is supplied by an independent expander (simple names, one bracket pair with "
-                     "ranges/lists/zero padding; two-bracket words only to witness F09-2BR)",
+                     "ranges/lists/zero padding; two-bracket words only to witness F09-2BR) AND by C02's hostlist model",
+                     "every -l but the last is within the user-name limit; write(2) on a connected socket succeeds",
+                     "rresvport/connect/xpoll/accept are parameters of the xrcmd model (scripted in part (f), the real "
+                     "kernel in part (d))",
                      "excluded hosts occur exactly once in the target list (duplicate exclusion is C02's subject)",
-                     "rank fits an int; at most 32 targets per run (one batch of threads)"],
+                     "rank fits an int; at most 70 targets per run (three batches of threads at the default fanout)"],
         trusted_base=["Lean 4.33 kernel", "axioms: propext, Classical.choice, Quot.sound at most (audited per theorem)",
                       "hand-written models Exec/Format.lean, Opt/Rcmd.lean tied to the code by differential execution",
                       "Gen/Modopt.lean regenerated from /repo (RCMD_RANK_LIST)",
-                      "harness/fmt_harness.c, argdump.c, preload_shim.c, modtmpl.c, vlib/preload.py, gcc, ASan/UBSan"],
+                      "Gen/Dsh.lean (LINEBUFSIZE), Gen/Hostlist.lean (probed variant of hostlist.c for the composed run)",
+                      "harness/fmt_harness.c, xrcmd_harness.c, argdump.c, preload_shim.c, modtmpl.c, vlib/preload.py, gcc, "
+                      "ASan/UBSan"],
         checker_cmd="lake build PdshVerif.Props.C09 && #print axioms on every theorem of Props/C09.lean")
